@@ -150,3 +150,71 @@ def c16_fallthrough(ctx):
                     break
     ctx.oblige('every function body in %d compiled programs ends in `j X; halt` (no fall-through into the next function)' % total, bad == 0)
     ctx.cov['evaluations'] += total
+
+
+# ---------------------------------------------------------------- byte-granular stack boundary
+FILL_BODIES = [
+    ('', 'byte[] arr = [\'w\', \'x\', \'y\', \'z\']; byte c = \'a\'; write(arr[0]); write(arr[1]); write(arr[2]); write(arr[3]); write(c);'),
+    ('', 'int[] v = [a, b]; bool t = b > 1; byte c = \'k\'; write(c); if (t) { write(\'T\'); } write(v[1] is byte); write(v[0] is byte);'),
+    ('empty h(int x) { byte[] loc = [\'l\', \'m\', \'n\']; bool e = x > 0; byte d = \'d\'; loc[1] = \'7\'; write(d); write(loc[2]); write(loc[1]); write(loc[0]); }\n', 'h(b); h(a);'),
+    ('', 'write(a); write(\' \'); write(b);'),
+    ('', 'int[] v = [11111, 22222, a]; write(v[2]); write(\' \'); write(v[0]); write(v[1]);'),
+    ('', 'byte[] arr = [\'w\', \'x\', \'y\', \'z\']; byte c = \'a\'; write(arr); write(c);'),
+    ('', 'bool[] m = [true, false, true, true, false, true, false, true, true]; bool t = b > 1; byte c = \'q\'; write(a); write(m[8]); write(t); write(c);'),
+    ('int f(int x) { byte k = \'k\'; int[] t = [x, x + 1]; write(k); write(t[1]); return t[0] * 2; }\n', 'int[] v = [f(b), f(a)]; write(v[0]); write(\' \'); write(v[1]);'),
+    ('int r(int d, int x) { if (d <= 0) { write(x); return x; } byte[] pad2 = [\'p\', \'q\', \'r\']; int y = r(d - 1, x); write(pad2); return y; }\n', 'write(r(b, a));'),
+    ('empty g(byte[] q, int k) { bool flag = k > 0; q[k] = \'!\'; write(q); write(flag); }\n', 'byte[] v = [\'a\', \'b\', \'c\']; g(v, 1); int m[b]; for (int i = 0; i < m.length; i += 1) { m[i] = a; } write(m[0]); g(v, 2);'),
+    ('', 'string s = "hello"; write(s); write(s[1]); write(a); write(s is byte[]);'),
+    ('empty !d(int x) { byte loc = \'L\'; !truth_is_defeat(x > 2); write(loc); write(x); }\n', 'try { int[] q = [a, b]; !d(b); write(q[0]); } stop { write("S"); write(a); }'),
+]
+
+
+def fill_sweep(ctx, bodies, ws, stacks, label='byte-granular stack boundary'):
+    """For each body: a leading byte array of input-dependent size n eats the stack one byte at a
+    time; every n from 0 to beyond capacity is run at a small stack and at a generous one.  The
+    small-stack run must equal the generous run or end in stack_overflow after a prefix of it."""
+    units, meta = [], []
+    for prelude, body in bodies:
+        src = (prelude + 'empty @is_you(int n, int a, int b) {\n  byte pad[n];\n  if (n > 0) { pad[0] = \'<\'; pad[n - 1] = \'>\'; }\n  '
+               + body + '\n  if (n > 0) { write(pad[0]); write(pad[n - 1]); }\n}\n')
+        for w in ws:
+            a = -(1 << (8 * w - 1))
+            for S in stacks:
+                ns = list(range(0, S * w + 3))
+                for bval in ('3', '1'):
+                    cfgs = []
+                    for n in ns:
+                        cfgs.append(Cfg((str(n), str(a), bval), w, S, False))
+                        cfgs.append(Cfg((str(n), str(a), bval), w, 400, False))
+                    units.append((src, cfgs))
+    results = diffrun.run_units(units, want_ref=False)
+    total = 0
+    nthr = 0
+    distinct = set()
+    for (src, _), rs in zip(units, results):
+        seen_ok = seen_of = False
+        for small, big in zip(rs[0::2], rs[1::2]):
+            total += 2
+            tb = hidrun.terminal(big.run)
+            ts = hidrun.terminal(small.run)
+            if big.run.status != 'ran' or small.run.status != 'ran' or tb[0] not in ('win', 'error') or 'stack_overflow' in tb[1]:
+                continue
+            distinct.add(hash((src, small.cfg)))
+            if ts == tb:
+                seen_ok = True
+                continue
+            if ts[0] == 'fuel':
+                continue
+            if ts[0] == 'error' and ts[1][-2:] == ['stack_overflow', 'error'] and tb[2].startswith(ts[2]) and tb[1][:len(ts[1]) - 2] == ts[1][:-2]:
+                seen_of = True
+                continue
+            kind = 'machine_fault' if ts[0] in ('fault', 'halt') else 'stack_boundary'
+            ctx.violate('with the stack filled to the byte, the run neither equals the generous-stack run nor ends in stack_overflow after a prefix of it (silent corruption / out-of-region access)',
+                        cls=kind, source=src, args=list(small.cfg.args), w=small.cfg.w, stack=small.cfg.stack,
+                        generous=[tb[0], tb[1], tb[2][:200].decode('latin1')], got=[ts[0], ts[1], ts[2][:200].decode('latin1')], detail=small.run.detail)
+        if seen_ok and seen_of:
+            nthr += 1
+    ctx.cov['evaluations'] += total
+    ctx.cov['distinct_nontrivial'] = ctx.cov.get('distinct_nontrivial', 0) + len(distinct)
+    ctx.cov.setdefault('distribution', {})[label] = {'programs': len(units), 'programs_whose_threshold_was_crossed': nthr, 'runs': total}
+    return nthr
